@@ -1363,7 +1363,7 @@ impl<'ctx> ByteCompiler<'ctx> {
                 });
             }
             None => {
-                self.compile_expr_operand(binary.lhs(), |compiler, lhs| {
+                self.compile_expr_operand_before(binary.lhs(), binary.rhs(), |compiler, lhs| {
                     compiler.compile_expr_operand(binary.rhs(), |compiler, rhs| {
                         label_index = compiler.next_opcode_location();
                         emit_fn(&mut compiler.bytecode, Self::DUMMY_ADDRESS, lhs, rhs);
@@ -1829,6 +1829,32 @@ impl<'ctx> ByteCompiler<'ctx> {
                 inner_fn(self, cached_reg.into());
                 return;
             }
+        }
+        let reg = self.register_allocator.alloc();
+        self.compile_expr(expr, &reg);
+        let op = reg.variable();
+        inner_fn(self, op);
+        self.register_allocator.dealloc(reg);
+    }
+
+    /// Like [`compile_expr_operand`](Self::compile_expr_operand), for an operand whose value is
+    /// consumed only after `later` has been evaluated (the left operand of a binary operator).
+    ///
+    /// A local's persistent register may be used directly only if `later` cannot assign that
+    /// local (`x + (x = 5)` must add the old value of `x`); otherwise the value is copied into a
+    /// temporary register first.
+    pub(crate) fn compile_expr_operand_before(
+        &mut self,
+        expr: &Expression,
+        later: &Expression,
+        inner_fn: impl FnOnce(&mut Self, RegisterOperand),
+    ) {
+        if matches!(
+            later.flatten(),
+            Expression::Literal(_) | Expression::Identifier(_) | Expression::This(_)
+        ) {
+            self.compile_expr_operand(expr, inner_fn);
+            return;
         }
         let reg = self.register_allocator.alloc();
         self.compile_expr(expr, &reg);
